@@ -214,7 +214,9 @@ func (fr *Frame) specEnvEntry(heap map[string]*Term) *SpecEnv {
 		}
 	}
 	for i, p := range fr.fn.FreeVars {
-		m[p.Name()] = &SV{T: fr.free[i].T, Ty: p.Type()}
+		// a captured variable: the name denotes the variable (its current value), not its cell;
+		// struct-typed variables stay references (field access auto-dereferences)
+		m[p.Name()] = fr.freeVarSV(p, fr.free[i], heap)
 	}
 	var pkg *types.Package
 	if fr.fn.Pkg != nil {
@@ -269,11 +271,13 @@ func (fr *Frame) specEnv(n *vnode, heap map[string]*Term) *SpecEnv {
 				case ssa.Instruction:
 					if f == fr && cv.Block() != nil && cv.Block() != n.b && cv.Block().Dominates(n.b) {
 						live = append(live, c)
-					} else if al, isAlloc := c.(*ssa.Alloc); isAlloc && f == fr && al.Block() == n.b {
-						// an address-taken local declared earlier in this very block (cut-point clauses):
-						// usable once it has been executed
-						if _, done := n.defs[al]; done {
-							live = append(live, c)
+					} else if f == fr && cv.Block() == n.b {
+						// a local defined earlier in this very block (cut-point clauses): usable once it
+						// has been executed
+						if vv, isVal := c.(ssa.Value); isVal {
+							if _, done := n.defs[vv]; done {
+								live = append(live, c)
+							}
 						}
 					}
 				}
@@ -333,6 +337,9 @@ func (fr *Frame) specEnv(n *vnode, heap map[string]*Term) *SpecEnv {
 		}
 		if v.T == nil {
 			return nil
+		}
+		if fv, ok := pick.(*ssa.FreeVar); ok {
+			return f.freeVarSV(fv, v, heap)
 		}
 		return &SV{T: v.T, Ty: ty}
 	}
@@ -731,4 +738,19 @@ func (e *Engine) globalAxioms(x *Exec) {
 		// its uninterpreted symbols (unused quantified axioms make the solvers give up)
 		vc.Axioms = append(vc.Axioms, env.evalBool(a.E))
 	}
+}
+
+// freeVarSV: the spec-level meaning of a captured variable's name.
+func (fr *Frame) freeVarSV(p *ssa.FreeVar, v *Val, heap map[string]*Term) *SV {
+	if v == nil || v.T == nil {
+		return nil
+	}
+	if pt, ok := p.Type().Underlying().(*types.Pointer); ok {
+		switch pt.Elem().Underlying().(type) {
+		case *types.Struct, *types.Array:
+		default:
+			return &SV{T: fr.loadObject(heap, v.T, pt.Elem()), Ty: pt.Elem()}
+		}
+	}
+	return &SV{T: v.T, Ty: p.Type()}
 }
